@@ -24,7 +24,7 @@
     [greachable] = reachable by ANY schedule from NewPersistentBlockList (any
     persistent state, any allocator answers) + NewPeriodicSyncer. *)
 From BBS Require Import Common.Sx Persist.PBL Persist.PBLProofs Persist.Syncer Persist.SyncerProofs
-  Persist.Shutdown Persist.ShutdownProofs Run.R03.
+  Persist.Shutdown Persist.ShutdownProofs Persist.ShutdownOrder Run.R03.
 Local Open Scope nat_scope.
 
 (** The ghost never influences the run. *)
@@ -90,6 +90,31 @@ Theorem commit_covers : forall cfg alloc oldest init t0 s x,
   forall w, In w (gs_writes x) -> forall a, In a (gw_cohort w) -> covers w a.
 Proof. exact commit_covers_all. Qed.
 Print Assumptions commit_covers.
+
+(** Completed state writes are ordered by what they cover (snapshots are taken
+    and completed under storeLock; the cohort of completed syncs only grows):
+    the cohort of an older write is a suffix of — i.e. contained in — the
+    cohort of the newest one. *)
+Theorem writes_monotone : forall cfg alloc oldest init t0 s x,
+  greachable cfg alloc oldest init t0 s x ->
+  forall w0 rest w, gs_writes x = w0 :: rest -> In w rest -> suffix (gw_cohort w) (gw_cohort w0).
+Proof. exact writes_monotone_all. Qed.
+Print Assumptions writes_monotone.
+
+(** commit_covers, at the crash: for every schedule, at any point (a process
+    crash keeps the media as they are, so the state on the medium is the
+    newest completed write): if some commit ran to completion — a completed
+    write w whose cohort is every ack made so far, i.e. no finalizer returned
+    OK between the start of w's sync and now — then the newest completed
+    write has every ack in its cohort and covers each of them (and by
+    [record_resolves_after_restart] their records resolve after restart). *)
+Theorem crash_commit_covers : forall cfg alloc oldest init t0 s x,
+  greachable cfg alloc oldest init t0 s x ->
+  forall w, In w (gs_writes x) -> gw_cohort w = g_acks (gs_g x) ->
+  exists w0 rest, gs_writes x = w0 :: rest /\ gw_cohort w0 = g_acks (gs_g x) /\
+                  forall a, In a (g_acks (gs_g x)) -> covers w0 a.
+Proof. exact crash_commit_covers_all. Qed.
+Print Assumptions crash_commit_covers.
 
 (** record level: the BlockReference that was written into the index record of
     a covered, not evicted ack resolves on the restarted list to the ack's block
@@ -190,6 +215,19 @@ Example refused_nonvacuous :
   | _ => False
   end.
 Proof. vm_compute. split; reflexivity. Qed.
+
+(** ... and after its first 13 steps (one upload, one periodic commit) a crash would find a
+    completed write whose cohort is every ack *)
+Example crash_nonvacuous :
+  match grun (mkConfig 0 3) (init_sys (fst (pbl_new (fun _ _ => true) 1 [])) 0) g0 (firstn 13 ex_trace) with
+  | Some (Ok (s, x)) =>
+      match gs_writes x with
+      | [w] => gw_cohort w = g_acks (gs_g x) /\ length (g_acks (gs_g x)) = 1 /\ s_p s = PStart
+      | _ => False
+      end
+  | _ => False
+  end.
+Proof. vm_compute. repeat split; reflexivity. Qed.
 
 Example layout_nonvacuous :
   ocn_new (cas_policy 2 3) 1 6 = mkLayout 1 0 5 0 /\ ocn_new (cas_policy 2 3) 1 7 = mkLayout 2 0 5 1 /\
